@@ -171,7 +171,11 @@ def check_override(rep, rng, shape, g, t_default, t_override, w):
         except Exception as e:  # noqa
             if (cdc == 'cer' or not dm) and wire.e1_applies(t_override, w):
                 continue
-            rep.fail(signature(shape, True, mode, 'override-' + codec.classify(e)), repr(e), replay)
+            from harness import sigs
+            sig = signature(shape, True, mode, 'override-' + codec.classify(e))
+            if isinstance(e, OverflowError) and sigs.has_real_default(t_override):
+                sig = 'T12-real-default-through-float'      # same attribution as in check_shape
+            rep.fail(sig, repr(e), replay)
 
 
 def run(rep, tier, seed):
